@@ -16,9 +16,11 @@ TRUST = ("Lean 4.33 kernel; axioms at most propext/Classical.choice/Quot.sound (
 MANIFEST = dict(
   text=("Lean theorems about an executable deep embedding VExp/MExp of remora's expression classes whose denotation "
         "(size, index -> R) is the documented element-wise definition, over an arbitrary commutative ring with opaque "
-        "functors: (i) one lemma per rewrite rule of detail/expression_optimizers.hpp (86 of 93; 7 rules are shown "
-        "uninstantiable), REGENERATED from the C++ on every run by translate/remora_rules.py and closed by one fixed "
-        "tactic, with optimize_sound lifting per-rule soundness to composite rewrites of any depth; (ii) "
+        "functors: (i) two lemmas per rewrite rule of detail/expression_optimizers.hpp (denotation preserved; well-formedness "
+        "preserved; 86 of 93 create bodies, the other 7 are shown uninstantiable and confirmed so by the compiler), "
+        "REGENERATED from the C++ on every run by translate/remora_rules.py and closed by fixed tactics, an executable "
+        "optimiser generated from 69 of the rules with generated soundness proof, and optimize_sound / genOpt_run_sound "
+        "lifting per-rule soundness to composite rewrites of any depth; (ii) "
         "assign_alias_correct: the aliasing forms =,+=,-=,*=,/= yield f(old target, rhs on the old memory) for every "
         "right-hand side, also when it reads the target; assign_noalias_correct / assign_noalias_elementwise_correct for "
         "the in-place forms under disjointness resp. same-index reads; (iii) orientation_irrelevant for all shapes and "
@@ -278,7 +280,22 @@ def run(ctx):
     if os.path.exists(os.path.join(core.LEAN, "SharkVerif", "Gen", "RemoraOpt.lean")):
         mods.append("SharkVerif.Gen.RemoraOpt")
     ok = ctx.prove(mods)
-    ctx.cov["rewrite_rule_lemmas_proved"] = sum(1 for n in ctx.obligations if ".rule_" in n) if ok else 0
+    ctx.cov["rewrite_rule_lemmas_proved"] = sum(1 for n in ctx.obligations if ".rule_" in n and not n.endswith("_wf")) if ok else 0
+    ctx.cov["rewrite_rule_wf_lemmas_proved"] = sum(1 for n in ctx.obligations if ".rule_" in n and n.endswith("_wf")) if ok else 0
+    # every generated theorem must have been seen by the audit (one AUDIT line each)
+    if ok:
+        audited = {n.split(".")[-1] for n in ctx.obligations}
+        for gen in ("RemoraRules.lean", "RemoraOpt.lean"):
+            gp = os.path.join(core.LEAN, "SharkVerif", "Gen", gen)
+            if os.path.exists(gp):
+                missing = [t for t in re.findall(r"^theorem (\\S+)", open(gp).read(), re.M) if t not in audited]
+                if missing:
+                    ctx.broken("audit", "unaudited:" + gen, f"generated theorems without an audit line: {missing[:5]}")
+    try:
+        ctx.cov["rules_in_generated_optimiser"] = int(re.search(r"genOptRuleCount : Nat := (\\d+)", open(os.path.join(
+            core.LEAN, "SharkVerif", "Gen", "RemoraOpt.lean")).read()).group(1))
+    except Exception:
+        pass
     if not ctx.quick:
         ctx.leanchecker(mods)
     drv = ctx.driver("drv_c01")
